@@ -265,8 +265,11 @@ def serialize_contract(lang, t, module_rel: str, cls_path: str, shape: typing.Op
     nb = p.nbytes
     m = nb + 1 if nb else 0
     B = "old(_ser_._bit_offset) // 8"
-    pre = list(p.invariant) + ["_ser_._bit_offset >= 0", f"smt('Bool', '(<= (+ {{0}} {m}) {{1}})', _ser_._bit_offset // 8, _ser_._buf.n)"]
-    for j in range(m):
+    # what nunavut_support.serialize() provides: room for the type's MAXIMUM size plus the spill byte, all zero
+    m_room = (max(t.inner_type.bit_length_set) + 7) // 8 + 1
+    m_room = max(m_room, m)
+    pre = list(p.invariant) + ["_ser_._bit_offset >= 0", f"smt('Bool', '(<= (+ {{0}} {m_room}) {{1}})', _ser_._bit_offset // 8, _ser_._buf.n)"]
+    for j in range(m_room):
         pre.append(f"smt('Bool', '(= (select {{0}} (+ {{1}} {j})) 0)', _ser_._buf.arr, _ser_._bit_offset // 8)")
     n_args = len(p.args)
     enc = p.enc()
@@ -389,9 +392,37 @@ def install_serializer_callees(e) -> None:
         if r_of(it, recv) != 0:
             raise PyRaise("ValueError")
         cur = it.ctx.get_field(recv, "_bit_offset")
-        return it.ctx.new_obj("Serializer", {"_buf": it.ctx.get_field(recv, "_buf"), "_bit_offset": cur, "_fork_base": cur})
+        k = _lit_arg(size, "fork size")
+        # the forked view holds `size` + 1 (the spill byte) bytes: a write beyond it raises IndexError in the real code
+        limit = it.binop(ast.Add(), it.binop(ast.FloorDiv(), cur, VInt("8")), VInt(str(k + 1)))
+        n = it.ctx.get_field(it.ctx.get_field(recv, "_buf"), "n")
+        from vk.epy import PyRaise, VBool
+        if it.ctx.branch(VBool(f"(< {n.t} {limit.t})"), "fork-larger-than-the-remaining-buffer"):
+            raise PyRaise("ValueError")
+        return it.ctx.new_obj("Serializer", {"_buf": it.ctx.get_field(recv, "_buf"), "_bit_offset": cur, "_fork_base": cur, "_limit": limit})
     e.intrinsics["Serializer.fork_bytes"] = fork_bytes
-    e.used("Serializer.fork_bytes: the fork shares the parent's storage (NumPy view) from the parent's byte position; its size limit is not modelled")
+    e.used("Serializer.fork_bytes: the fork shares the parent's storage (NumPy view) from the parent's byte position and ends `size` + 1 bytes later (every write through it must stay below that limit)")
+
+    # every write through a fork must also fit the fork's own view: the room requirement of the callee contracts is
+    # repeated against the fork's limit
+    import re as _re
+
+    def limited(sel):
+        def wrapped(it, a, kw):
+            c = sel(it, a, kw) if callable(sel) and not isinstance(sel, Contract) else sel
+            recv = a[0]
+            from vk.epy import VObj
+            if isinstance(recv, VObj) and "_limit" in it.ctx.heap[recv.ref]:
+                for r in list(c.requires):
+                    m = _re.search(r"\(<= \(\+ \{0\} (\d+)\) \{1\}\)', (\w+)\._bit_offset // 8, (\w+)\._buf\.n\)", r)
+                    if m:
+                        c.requires.append(f"smt('Bool', '(<= (+ {{0}} {m.group(1)}) {{1}})', {m.group(2)}._bit_offset // 8, {m.group(2)}._limit)")
+                        if "_limit" not in str(c.params.get(m.group(2))):
+                            pass
+            return c
+        return wrapped
+    for key in [k for k in e.contracts if k.startswith(S)]:
+        e.contracts[key] = limited(e.contracts[key])
 
 
 def _skip(r: int, k: int) -> Contract:
